@@ -15,7 +15,7 @@ sys.path.insert(0, str(Path(__file__).resolve().parent))
 from framework import (Ctx, Disagreement, Driver, SuiteResult, Violation, corpus_cases,
                        setup_repo_path)
 
-PROTO_LABELS_TOTAL = 64   # action constructors (callback actions counted per kind) of Pamiq.Proto
+PROTO_LABELS_TOTAL = 61   # action constructors of Pamiq.Proto: 14 background + 32 control/worker + 3 callback actions x 5 kinds
 
 
 def _one(args):
